@@ -102,6 +102,26 @@ func evalC06RT(c c06RT, o *Obs) error {
 	if d.String() != s {
 		return fmt.Errorf("DecodeWIF(%q).String() = %q", s, d.String())
 	}
+	// the result of SerializePubKey belongs to the caller: scribbling over it must not change later results,
+	// and the (exported) compression flag is honoured on every call
+	first := w.SerializePubKey()
+	for i := range first {
+		first[i] ^= 0xff
+	}
+	if got := w.SerializePubKey(); !bytes.Equal(got, wantPub) {
+		return fmt.Errorf("SerializePubKey returns %x after the caller modified the slice returned by an earlier call, want %x", got, wantPub)
+	}
+	w.CompressPubKey = !c.Compress
+	otherPub := serPub(x, y, 0)
+	if c.Compress {
+		otherPub = serPub(x, y, 1)
+	}
+	if got := w.SerializePubKey(); !bytes.Equal(got, otherPub) {
+		return fmt.Errorf("after flipping CompressPubKey to %v SerializePubKey returns %d bytes %x, want %x", !c.Compress, len(got), got, otherPub)
+	}
+	if got, want := w.String(), refWIFEncode(p.PrivateKeyID, c.Scalar, !c.Compress); got != want {
+		return fmt.Errorf("after flipping CompressPubKey to %v String() = %q, want %q", !c.Compress, got, want)
+	}
 	return nil
 }
 
